@@ -5,6 +5,7 @@ CONSTANTS
   FwKinds = {"ok"}
   FwConfigs = {"--"}
   Values = {1}
+  NoResult = {FALSE}
   ErrReplies = FALSE
   HostileClasses = {}
   MetaKeys = {}
